@@ -64,3 +64,39 @@ package x509
 //@   (requires args (not (isnil c)))
 //@   (ghost-havoc sign.obj sign.len sign.calls)
 //@   (ensures-internal convention (=> (isnil err) (= (= hashFunc 16) (= (ghost sign.obj) (obj tbsCertListContents))))))
+
+// ---- path validation (C10, soundness fragments) ----------------------------------------------------------------------
+// isValid accepts a certificate for a chain position only if: it is within its validity window at the verification
+// time, its subject equals the issuer of the certificate below it, an intermediate is a CA with valid basic
+// constraints, the path-length constraint admits the intermediates below it, and - if it carries permitted DNS domains -
+// one of them matches the requested name.
+// matchNameConstraint: the exact verdict (RFC 5280 4.2.1.10 as implemented by NSS): an empty constraint matches everything;
+// otherwise the domain must end with the constraint (case-folded), and a proper suffix must begin at a label boundary
+// exactly when the constraint does not itself begin with a dot.
+//@ (defmacro sfold (d k c) (str.fold (obj d) (bvadd (off d) k) (bvsub (len d) k) (obj c) (off c) (len c)))
+//@ (defmacro nameOK (domain constraint) (or (= (len constraint) 0)
+//@     (and (bvsge (len domain) (len constraint))
+//@          (sfold domain (bvsub (len domain) (len constraint)) constraint)
+//@          (or (= (len domain) (len constraint))
+//@              (not (= (= (at domain (bvsub (bvsub (len domain) (len constraint)) 1)) #x2e) (= (at constraint 0) #x2e)))))))
+//@ (func matchNameConstraint
+//@   (modifies)
+//@   (returns result (nameOK domain constraint)))
+//@ (defmacro sameBytes (a b) (and (= (len a) (len b)) (forall ((j B64)) (=> (bvult j (len a)) (= (at a j) (at b j))))))
+//@ (defmacro tbefore (a b) (time.before (field a wall) (field a ext) (field b wall) (field b ext)))
+//@ (defmacro tafter (a b) (time.after (field a wall) (field a ext) (field b wall) (field b ext)))
+//@ (func "(*Certificate).isValid" autoloops split-returns
+//@   (requires args (and (not (isnil c)) (not (isnil opts))))
+//@   (requires chain (=> (bvsgt (len currentChain) 0) (not (isnil (at currentChain (bvsub (len currentChain) 1))))))
+//@   (modifies)
+//@   (ensures-internal window (=> (isnil result) (and (not (tbefore now (field c NotBefore))) (not (tafter now (field c NotAfter))))))
+//@   (ensures-internal clock (=> (and (isnil result) (not (time.iszero (field (field opts CurrentTime) wall) (field (field opts CurrentTime) ext))))
+//@                               (and (= (field now wall) (field (field opts CurrentTime) wall)) (= (field now ext) (field (field opts CurrentTime) ext)))))
+//@   (ensures names (=> (and (isnil result) (bvsgt (len (field c PermittedDNSDomains)) 0))
+//@      (exists ((j B64)) (and (bvult j (len (field c PermittedDNSDomains)))
+//@         (nameOK (field opts DNSName) (at (field c PermittedDNSDomains) j))))))
+//@   (ensures chainname (=> (and (isnil result) (bvsgt (len currentChain) 0))
+//@      (sameBytes (field (at currentChain (bvsub (len currentChain) 1)) RawIssuer) (field c RawSubject))))
+//@   (ensures ca (=> (and (isnil result) (= certType 1)) (and (field c BasicConstraintsValid) (field c IsCA))))
+//@   (ensures pathlen (=> (and (isnil result) (field c BasicConstraintsValid) (bvsge (field c MaxPathLen) 0))
+//@                        (bvsle (bvsub (len currentChain) 1) (field c MaxPathLen)))))
